@@ -451,6 +451,7 @@ def message_send_sites(F, P, fns, variant):
     """call sites (in the given bodies) that hand a `ClientMessage::<variant>` to the transport sink, directly or through a local
     accessor.  Returns [(g, bb, t, agg_term)] where agg_term is the (possibly inlined: 'bound') aggregate that built the message."""
     out = []
+    lift = lifter(F, P, fns)
     for g in fns:
         for bb, t in g.calls():
             direct = callee_is(t, 'Sink::start_send') and 'Fuse<' in (t.get('self_ty') or '')
@@ -464,7 +465,7 @@ def message_send_sites(F, P, fns, variant):
                     if ru[0] == 'agg' and not norm_path(p):
                         rv = P._agg_rv(ru)
                         if path_matches(rv['adt'], 'ClientMessage') and rv['variant'] == variant:
-                            out.append((g, bb, t, r))
+                            out.append((g, bb, t, lift(g, r)))
     return out
 
 
@@ -592,3 +593,50 @@ def removal_key_terms(P, g, bb, t):
         if P.is_call(r, 'HashMap::entry'):
             out.append(P.args_of(r)[1])
     return out
+
+
+def own_sites(F, table, m, g, bb):
+    """where, in the method m's own body (or its closures), the effect at (g, bb) is triggered: the site itself if g belongs to m, else m's call(s)
+    to the helper that (transitively) contains it"""
+    own = F.with_descendants(m)
+    if any(g.id == x.id for x in own):
+        return [(g, bb)]
+    out = []
+    for x in own:
+        for b2, t2 in x.calls():
+            h = F.callee_fn(t2)
+            if h is None or not table.is_helper(h):
+                continue
+            if any(g.id == y.id for y in reachable_local_fns(F, h, depth=3)):
+                out.append((x, b2))
+    return out
+
+
+def lifter(F, P, within):
+    """lift(g, term): rewrite a term of body g so that g's own parameters are replaced by the arguments of g's call site, as long as g is a private
+    function with exactly one call site inside `within` (applied repeatedly, through closures too): a value written by a helper is then traced to where
+    its caller obtained it.  Terms of functions with several call sites are left alone (their parameters stay parameters)."""
+    ids = {x.id for x in within}
+    sites = {}
+    for h in within:
+        for bb, t in h.calls():
+            c = F.callee_fn(t)
+            if c is not None:
+                sites.setdefault(c.id, []).append((h, bb, t))
+
+    def lift(g, term, depth=4):
+        while depth > 0:
+            depth -= 1
+            if g.kind == 'Closure':
+                return term     # closure parameters are resolved by root() through the combinator they are passed to
+            ss = sites.get(g.id, [])
+            if len(ss) != 1 or (g.vis or '').startswith('Public') and not (g.impl_of or {}).get('self_head'):
+                return term
+            if any('task::Context<' in g.local_ty(k) or 'task::wake::Context<' in g.local_ty(k) for k in range(1, g.argc + 1)):
+                return term     # a poll function obtains its values itself; only plain (non-polling) helpers are handed them
+            h, bb, t = ss[0]
+            args = [P.operand(h, a, at=bb) for a in t['args']]
+            term = P.subst(term, g.id, args)
+            g = h
+        return term
+    return lift
